@@ -292,6 +292,19 @@ func c16ReadOnly(w *core.W, j int) {
 		}
 		w.Count("readonly_hand_set_records", n)
 	}
+	if j%8 == 5 {
+		// a message that cannot be packed as it stands: an extended RCODE and no OPT record to carry it.
+		// Pack reports that; it does not repair the caller's message
+		var ex []dns.RR
+		for _, rr := range built.Extra {
+			if rr.Header().Rrtype != dns.TypeOPT {
+				ex = append(ex, rr)
+			}
+		}
+		built.Extra = ex
+		built.Rcode = []int{16, 17, 23, 255, 4095}[j/8%5]
+		w.Count("readonly_unpackable_messages", 1)
+	}
 	ops := []struct {
 		name string
 		f    func(m *dns.Msg)
